@@ -459,4 +459,168 @@ theorem inv_run (ops : List Op) (s : Sys) (h : Inv s) : Inv (run s ops) := by
   | nil => exact h
   | cons op ops ih => exact ih _ (inv_step s op h)
 
+
+/-! ## refinement: every component of a composed run is a run of the component model -/
+
+theorem step_nets (s : Sys) (op : Op) (q : Nat) :
+    (step s op).nets q = s.nets q ∨ ∃ nop, (step s op).nets q = (s.nets q).step nop := by
+  have hupd : ∀ (p : Nat) (nop : Remote.Op), upd s.nets p ((s.nets p).step nop) q = s.nets q ∨
+      ∃ nop', upd s.nets p ((s.nets p).step nop) q = (s.nets q).step nop' := by
+    intro p nop
+    by_cases e : q = p
+    · subst e; exact Or.inr ⟨nop, by rw [upd_self]⟩
+    · exact Or.inl (by rw [upd_other _ _ _ _ e])
+  cases op with
+  | cast p a b => simp only [step]; split; exact hupd p _; exact Or.inl rfl
+  | call p a b => simp only [step]; split; exact hupd p _; exact Or.inl rfl
+  | abandon p a => exact hupd p _
+  | proxy p => simp only [step]; split; exact hupd p _; exact Or.inl rfl
+  | moveF i => simp only [step]; split; exact Or.inl rfl; exact hupd _ _
+  | answer p a d => exact hupd p _
+  | drop p a => exact hupd p _
+  | moveB i => simp only [step]; split; exact Or.inl rfl; exact hupd _ _
+  | targetExit p => exact hupd p _
+  | link e =>
+    simp only [step]
+    split
+    · exact Or.inr ⟨.loseA, rfl⟩
+    · exact Or.inl rfl
+
+theorem step_link (s : Sys) (op : Op) :
+    (step s op).link = s.link ∨ ∃ e, (step s op).link = Link.step s.link e := by
+  cases op with
+  | link e => exact Or.inr ⟨_, rfl⟩
+  | cast p a b => simp only [step]; split <;> exact Or.inl rfl
+  | call p a b => simp only [step]; split <;> exact Or.inl rfl
+  | proxy p => simp only [step]; split <;> exact Or.inl rfl
+  | moveF i => simp only [step]; split <;> exact Or.inl rfl
+  | moveB i => simp only [step]; split <;> exact Or.inl rfl
+  | abandon p a => exact Or.inl rfl
+  | answer p a d => exact Or.inl rfl
+  | drop p a => exact Or.inl rfl
+  | targetExit p => exact Or.inl rfl
+
+/-- the `Net` of every reference and the `Link` of a composed run are runs of `Net` / `Link` -/
+theorem run_refines (ops : List Op) (s : Sys) :
+    (∀ p, ∃ nops, (run s ops).nets p = (s.nets p).run nops) ∧ ∃ evs, (run s ops).link = Link.run s.link evs := by
+  induction ops generalizing s with
+  | nil => exact ⟨fun p => ⟨[], rfl⟩, [], rfl⟩
+  | cons op ops ih =>
+    obtain ⟨h1, evs, h2⟩ := ih (step s op)
+    refine ⟨fun p => ?_, ?_⟩
+    · obtain ⟨nops, hn⟩ := h1 p
+      rcases step_nets s op p with h | ⟨nop, h⟩
+      · exact ⟨nops, by rw [← h]; exact hn⟩
+      · exact ⟨nop :: nops, by rw [Net.run, List.foldl_cons, ← h]; exact hn⟩
+    · rcases step_link s op with h | ⟨e, h⟩
+      · exact ⟨evs, by rw [← h]; exact h2⟩
+      · exact ⟨e :: evs, by rw [Link.run, List.foldl_cons, ← h]; exact h2⟩
+
+/-! ## a stopped proxy stays stopped -/
+
+theorem stopped_step (s : Sys) (op : Op) (p : Nat) (h : stopped s p = true) : stopped (step s op) p = true := by
+  simp only [stopped, Bool.and_eq_true, Bool.not_eq_true'] at h ⊢
+  obtain ⟨hm, hu⟩ := h
+  refine ⟨?_, ?_⟩
+  · cases op with
+    | link e => simp only [step]; have : p ∈ s.made := by simpa using hm
+                simp [this]
+    | cast q a b => simp only [step]; split <;> exact hm
+    | call q a b => simp only [step]; split <;> exact hm
+    | proxy q => simp only [step]; split <;> exact hm
+    | moveF i => simp only [step]; split <;> exact hm
+    | moveB i => simp only [step]; split <;> exact hm
+    | abandon q a => exact hm
+    | answer q a d => exact hm
+    | drop q a => exact hm
+    | targetExit q => exact hm
+  · rcases step_nets s op p with h | ⟨nop, h⟩
+    · rw [h]; exact hu
+    · rw [h]; exact net_down_stays _ _ hu
+
+theorem stopped_run (ops : List Op) (s : Sys) (p : Nat) (h : stopped s p = true) : stopped (run s ops) p = true := by
+  induction ops generalizing s with
+  | nil => exact h
+  | cons op ops ih => exact ih _ (stopped_step s op p h)
+
+/-! ## a reference is a member of a group only while it is in `remote_actors` -/
+
+def MInv (m : Mirror) : Prop := ∀ e ∈ m.members, e.2 ∈ m.proxies
+
+theorem minv_step (m : Mirror) (c : Ctl) (h : MInv m) : MInv (m.step c) := by
+  cases c with
+  | spawn pids => intro e he; exact (mem_ensure m pids e.2).mpr (Or.inl (h e he))
+  | terminate pids =>
+    intro e he
+    simp only [Mirror.step, List.mem_filter] at he ⊢
+    exact ⟨h e he.1, he.2⟩
+  | pgJoin sc g pids =>
+    intro e he
+    simp only [Mirror.step] at he ⊢
+    rw [mem_ensure]
+    rw [mem_joinAll] at he
+    rcases he with he | he
+    · exact Or.inl (h e (by simpa [ensure_members] using he))
+    · exact Or.inr he.2
+  | pgLeave sc g pids =>
+    intro e he
+    simp only [Mirror.step, leaveAll, List.mem_filter] at he ⊢
+    exact h e he.1
+  | close => intro e he; simp [Mirror.step] at he
+
+theorem link_minv (l : Link.S Unit) (e : Link.Ev Unit) (h : MInv l.mirror) : MInv (Link.step l e).mirror := by
+  cases e with
+  | ctl c => simp only [Link.step]; split; exact minv_step _ _ h; exact h
+  | send f => simp only [Link.step]; split <;> exact h
+  | writer w fl =>
+    simp only [Link.step]
+    split
+    · split <;> exact h
+    · exact h
+  | read r =>
+    simp only [Link.step]
+    split
+    · split
+      · split <;> exact h
+      · exact h
+    · exact h
+  | sessionStops => simp only [Link.step]; split <;> exact h
+  | nodeNotices => simp only [Link.step]; split; exact minv_step _ _ h; exact h
+  | proxyStopped pid => simp only [Link.step]; split; exact minv_step _ _ h; exact h
+  | sendVia pid => simp only [Link.step]; split <;> exact h
+
+theorem minv_run (evs : List (Link.Ev Unit)) (l : Link.S Unit) (h : MInv l.mirror) : MInv (Link.run l evs).mirror := by
+  induction evs generalizing l with
+  | nil => exact h
+  | cons e evs ih => exact ih _ (link_minv l e h)
+
+
+/-! ## sends -/
+
+theorem cast_accepted (s : Sys) (p a b : Nat) (h : accepts s p = true) :
+    ((step s (.cast p a b)).nets p).sent = (s.nets p).sent ++ [⟨false, a, b⟩] ∧
+    ((step s (.cast p a b)).nets p).mbox = (s.nets p).mbox ++ [(.cast b, a)] ∧
+    (step s (.cast p a b)).accepted = s.accepted ++ [(p, ⟨false, a, b⟩)] ∧
+    (step s (.cast p a b)).refused = s.refused := by
+  have h' := h
+  simp only [accepts, running, Bool.and_eq_true] at h
+  simp only [accepts] at h'
+  simp only [step, if_pos h.1, if_pos h', upd_self]
+  simp [Net.step, h.2]
+
+theorem cast_refused (s : Sys) (p a b : Nat) (h : accepts s p = false) :
+    (step s (.cast p a b)).nets p = s.nets p ∧
+    (step s (.cast p a b)).accepted = s.accepted ∧
+    (step s (.cast p a b)).refused = s.refused ++ [(p, ⟨false, a, b⟩)] := by
+  have h' := h
+  simp only [accepts] at h'
+  simp only [accepts, running] at h
+  by_cases hm : s.made.contains p = true
+  · have hu : (s.nets p).linkUp = false := by rw [hm] at h; simpa using h
+    simp only [step, if_pos hm, h', Bool.false_eq_true, ↓reduceIte, upd_self]
+    simp [Net.step, hu]
+  · simp only [step, if_neg hm, and_self]
+
+theorem settle_link (s : Sys) : (settle s).link = Link.settle s.link := rfl
+
 end Compose
